@@ -407,8 +407,9 @@ def url(value):
         return value
     raise ValueError("value %r is not a URL" % value)
 
-# all valid signal numbers
-SIGNUMS = [ getattr(signal, k) for k in dir(signal) if k.startswith('SIG') ]
+# all valid signal numbers (SIG_DFL, SIG_IGN, SIG_BLOCK etc. are not signals)
+SIGNUMS = [ getattr(signal, k) for k in dir(signal)
+            if k.startswith('SIG') and not k.startswith('SIG_') ]
 
 def signal_number(value):
     try:
@@ -418,7 +419,7 @@ def signal_number(value):
         if not name.startswith('SIG'):
             name = 'SIG' + name
         num = getattr(signal, name, None)
-        if num is None:
+        if num is None or name.startswith('SIG_'):
             raise ValueError('value %r is not a valid signal name' % value)
     if num not in SIGNUMS:
         raise ValueError('value %r is not a valid signal number' % value)
